@@ -57,6 +57,10 @@ def make_case(tier, seed, index):
         s = int(rng.integers(0, 4))
         return {"kind": "impulse", "D": D, "dt": dt, "timescale": tscale, "q": q, "s": s, "nsteps": nsteps, "cohort": float(10 ** rng.uniform(0, 5)), "x0": float(rng.choice([0.0, 0.0, 100.0, 1e4])), "start": float(rng.choice([2000.0, 2000.5, 2017.25])), "regime": regime}
     rng = gen.rng_for(seed, 5, 100000 + index)
+    if index % simprop.CORPUS_EVERY == simprop.CORPUS_EVERY - 1:
+        from av import corpus
+
+        return corpus.make_case(rng, max_steps=40 if tier == "quick" else 80)
     pf = {"p_timed": 1.0, "p_group_junction": 0.5, "p_transfer": 0.7, "n_pops": (1, 3), "n_ord": (3, 6)}
     if tier == "thorough":
         pf["steps"] = (5, 60)
@@ -156,9 +160,9 @@ def run_case(case):
     R = ref.Recs()
     if case["kind"] == "impulse":
         return run_impulse(case, R)
-    spec = case["spec"]
+    spec = case.get("spec")
     try:
-        P, result, view = simcase.simulate(spec, R)
+        P, result, view = simcase.simulate_case(case, R)
     except simcase.Excluded as e:
         return {"records": R.records(), "stats": R.stats, "nontrivial": False, "excluded": e.reason}
     ref.check_timed_bins(view, R)
@@ -167,4 +171,4 @@ def run_case(case):
     nontrivial = R.stats.get("steps_with_timed_release", 0) > 0
     for f in simprop.features(view):
         R.count("feature[%s]" % f)
-    return {"records": R.records(), "stats": R.stats, "nontrivial": bool(nontrivial), "sample": simprop.sample_of(spec)}
+    return {"records": R.records(), "stats": R.stats, "nontrivial": bool(nontrivial), "sample": simprop.sample_of_case(case)}
